@@ -326,4 +326,70 @@ theorem insideEO_of_not_inBBox (p v : Pt) (r : List Pt) (h : inBBox p (closeUp (
     have : (v :: (r ++ [v])).getLast (by simp) = v := by simp
     rw [this]; simp
 
+/-! ### the direction of the ray does not matter (off the boundary) -/
+
+/-- the mirror image of `crossesRay`: the edge is crossed strictly *west* of the query -/
+def crossesRayW (p : Pt) (e : Edge) : Bool :=
+  (decide (e.1.2 > p.2) != decide (e.2.2 > p.2)) &&
+  (decide (pcross e p < 0) == decide (e.2.2 > e.1.2))
+
+/-- an edge that straddles the query's level and does not contain the query is crossed on exactly one side -/
+theorem east_xor_west (p : Pt) (e : Edge) (hoff : onEdge p e = false) :
+    (crossesRay p e != crossesRayW p e) = (decide (e.1.2 > p.2) != decide (e.2.2 > p.2)) := by
+  unfold crossesRay crossesRayW
+  by_cases h1 : e.1.2 > p.2 <;> by_cases h2 : e.2.2 > p.2
+  · simp [h1, h2]
+  · have hne : pcross e p ≠ 0 := by
+      intro h0
+      have := onEdge_of_line h0 (Or.inl ⟨not_lt.mp h2, h1⟩)
+      rw [hoff] at this; exact absurd this (by simp)
+    have hn : ¬ e.2.2 > e.1.2 := by intro h; linarith [not_lt.mp h2]
+    rcases lt_or_gt_of_ne hne with hneg | hpos
+    · have : ¬ (pcross e p > 0) := not_lt.mpr (le_of_lt hneg)
+      simp [h1, h2, hn, hneg, this]
+    · have : ¬ (pcross e p < 0) := not_lt.mpr (le_of_lt hpos)
+      simp [h1, h2, hn, hpos, this]
+  · have hne : pcross e p ≠ 0 := by
+      intro h0
+      have := onEdge_of_line h0 (Or.inr ⟨not_lt.mp h1, h2⟩)
+      rw [hoff] at this; exact absurd this (by simp)
+    have hy : e.2.2 > e.1.2 := by linarith [not_lt.mp h1]
+    rcases lt_or_gt_of_ne hne with hneg | hpos
+    · have : ¬ (pcross e p > 0) := not_lt.mpr (le_of_lt hneg)
+      simp [h1, h2, hy, hneg, this]
+    · have : ¬ (pcross e p < 0) := not_lt.mpr (le_of_lt hpos)
+      simp [h1, h2, hy, hpos, this]
+  · simp [h1, h2]
+
+theorem countP_xor_parity {α : Type} (a b s : α → Bool) : ∀ (l : List α),
+    (∀ e ∈ l, (a e != b e) = s e) → (l.countP a + l.countP b) % 2 = l.countP s % 2
+  | [], _ => by simp
+  | e :: l, h => by
+    have ih := countP_xor_parity a b s l (fun x hx => h x (List.mem_cons_of_mem _ hx))
+    have he := h e (by simp)
+    simp only [List.countP_cons]
+    cases ha : a e <;> cases hb : b e <;> simp [ha, hb] at he <;> simp [he] <;> omega
+
+/-- **off the boundary, the east-going and the west-going ray see the same crossing parity** (a closed walk
+    changes side of a horizontal line an even number of times) -/
+theorem parity_ray_independent (p v : Pt) (r : List Pt)
+    (hoff : (ringEdges (v :: r)).any (onEdge p) = false) :
+    (ringEdges (v :: r)).countP (crossesRay p) % 2 = (ringEdges (v :: r)).countP (crossesRayW p) % 2 := by
+  have hoff' : ∀ e ∈ ringEdges (v :: r), onEdge p e = false := by
+    intro e he
+    by_contra hc
+    have : (ringEdges (v :: r)).any (onEdge p) = true := List.any_eq_true.mpr ⟨e, he, by simpa using hc⟩
+    rw [hoff] at this; exact absurd this (by simp)
+  have hsum := countP_xor_parity (crossesRay p) (crossesRayW p)
+    (fun e => decide (e.1.2 > p.2) != decide (e.2.2 > p.2)) (ringEdges (v :: r))
+    (fun e he => east_xor_west p e (hoff' e he))
+  have heven : (ringEdges (v :: r)).countP
+      (fun e => decide (e.1.2 > p.2) != decide (e.2.2 > p.2)) % 2 = 0 := by
+    rw [ringEdges_eq_pathEdges_closeUp]
+    have hcl : closeUp (v :: r) = v :: (r ++ [v]) := by simp [closeUp]
+    rw [hcl, parity_path (fun q => decide (q.2 > p.2)) (r ++ [v]) v]
+    have : (v :: (r ++ [v])).getLast (by simp) = v := by simp
+    rw [this]; simp
+  omega
+
 end GV
